@@ -8,6 +8,7 @@ import (
 	"fmt"
 	"math/rand"
 	"os"
+	"runtime"
 	"sync"
 	"time"
 
@@ -75,6 +76,20 @@ func iavlEarlyClose(seed int64, rounds int) {
 	fmt.Printf("ok iavl-early-close rounds=%d, no data race reported\n", rounds)
 }
 
+type slowParent struct{ dbadapter.Store }
+
+func (p slowParent) Get(key []byte) []byte {
+	runtime.Gosched()
+	v := p.Store.Get(key)
+	runtime.Gosched()
+	return v
+}
+
+func (p slowParent) Has(key []byte) bool {
+	runtime.Gosched()
+	return p.Store.Has(key)
+}
+
 func main() {
 	scenario := flag.String("scenario", "cachekv", "cachekv | iavl-early-close")
 	seed := flag.Int64("seed", 1, "seed")
@@ -129,7 +144,8 @@ func main() {
 	}
 	total := 0
 	for r := 0; r < *rounds; r++ {
-		parent := dbadapter.Store{DB: dbm.NewMemDB()}
+		// a parent whose reads yield the processor: interleavings inside a read-through to the parent become likely
+		parent := slowParent{dbadapter.Store{DB: dbm.NewMemDB()}}
 		st := cachekv.NewStore(parent)
 		var mu sync.Mutex
 		var hist []porcupine.Operation
